@@ -118,20 +118,30 @@ func (c *hbConn) Write(b []byte) (n int, err error) {
 func (c *hbConn) Read(b []byte) (int, error) {
 	select {
 	case <-c.closed:
-		return 0, net.ErrClosed
+		// Messages received before the connection closed are still delivered.
+		select {
+		case readBytes := <-c.recvCh:
+			return readBytes.copyTo(b)
+		default:
+			return 0, net.ErrClosed
+		}
 	case readBytes := <-c.recvCh:
-		if readBytes.err != nil {
-			return 0, readBytes.err
-		}
-
-		if len(b) < len(readBytes.b) {
-			return 0, ErrInsufficientBuffer
-		}
-
-		n := copy(b, readBytes.b)
-
-		return n, nil
+		return readBytes.copyTo(b)
 	}
+}
+
+func (readBytes errBytes) copyTo(b []byte) (int, error) {
+	if readBytes.err != nil {
+		return 0, readBytes.err
+	}
+
+	if len(b) < len(readBytes.b) {
+		return 0, ErrInsufficientBuffer
+	}
+
+	n := copy(b, readBytes.b)
+
+	return n, nil
 }
 
 func (c *hbConn) BufferedAmount() uint64 {
